@@ -283,10 +283,12 @@ var def = pbt.Def[Case]{Name: "third-peer-responses", Gen: gen, Run: judge}
 func TestProp(t *testing.T) {
 	outerT = t
 	pbt.Check(t, run, def, 3000, 80000)
+	pbt.Check(t, run, defMulti, 2000, 50000)
 }
 
 func TestReplay(t *testing.T) {
 	outerT = t
 	pbt.Register(run, def)
+	pbt.Register(run, defMulti)
 	run.Replay(t)
 }
